@@ -308,6 +308,20 @@ static vf::Result run_case(const Case &c, Info *info)
 	return res;
 }
 
+
+// The library's debug printing (on because NDEBUG is off) is replaced at link time: the arguments are still formatted (so that the sanitizers
+// see them) but nothing is written — thousands of cases would otherwise produce hundreds of megabytes of output.
+#include <cstdarg>
+#include <cstdio>
+extern "C" void __wrap_lrtr_dbg(const char *frmt, ...)
+{
+	char buf[2048];
+	va_list ap;
+	va_start(ap, frmt);
+	vsnprintf(buf, sizeof buf, frmt, ap);
+	va_end(ap);
+}
+
 int main(int argc, char **argv)
 {
 	vf::Args args = vf::parse_args(argc, argv);
